@@ -1,3 +1,4 @@
 import AsyncVerif.Machines.ExitStack
 import AsyncVerif.Proofs.ExitStack
 import AsyncVerif.Properties.C14
+import AsyncVerif.Properties.C16
